@@ -1,7 +1,7 @@
 (* C14 - Beats are exact fractions that snap to the 1/48 grid only from inexact input.
    Statements only; proofs are in Proofs/C14.v. *)
 From Coq Require Import ZArith.
-From SV Require Import Beat Proofs.C14 Generated.Tables.
+From SV Require Import Str Beat Proofs.C14 Proofs.C14Lex Generated.Tables.
 Open Scope Z_scope.
 
 (* the model's tick subdivision is the one the code defines now *)
@@ -34,6 +34,12 @@ Print Assumptions C14_tick_unchanged.
 Theorem C14_str_roundtrip : forall t : Z, round_tick (thousandths t) 1000 = t.
 Proof. exact thousandths_roundtrip. Qed.
 Print Assumptions C14_str_roundtrip.
+
+(* the same, at the level of characters: str(Beat) (sign, integer part, '.', three digits) read
+   by Beat.from_str (strip, sign, split on '.', digits, rounding) is the tick it was written from *)
+Theorem C14_text_roundtrip : forall t : Z, beat_from_str (show3 t) = Got t.
+Proof. exact show3_reads_back. Qed.
+Print Assumptions C14_text_roundtrip.
 
 Theorem C14_margin : forall t : Z,
   let r := (1000 * t) mod 48 in
